@@ -36,7 +36,10 @@ func getU32(b []byte) uint32 {
 func genMalformed(c *sim.Ctx, st *sim.Stream, depthMax int) *malformedCase {
 	o := &ref.GenOpts{BigString: st.Chance(1, 6), MaxDepth: 5}
 	var v *ref.Value
-	switch st.Pick(5, 3, 1) {
+	switch st.Pick(5, 3, 1, 1) {
+	case 3:
+		v = ref.GenWide(st, []int{63, 64, 65, 66, 70, 130, 200}[st.Choose(7)])
+		c.Count("gen.wide")
 	case 0:
 		budget := []int{48, 300, 2000, 9000}[st.Pick(4, 3, 2, 1)]
 		t := ref.GenType(st)
